@@ -537,6 +537,22 @@ class _Spelling(ast.NodeTransformer):
         out.append(_Spelling._ifexp_assign(arm))
       return [ast.copy_location(ast.If(test=v.test, body=out[0],
                                        orelse=out[1]), st)]
+    # xs.append(A if c else B)  ->  if c: xs.append(A)  else: xs.append(B)
+    # (a call statement on a plain name / attribute path whose only argument
+    # is the conditional expression)
+    if isinstance(st, ast.Expr) and isinstance(st.value, ast.Call) and \
+        dotted(st.value.func) and len(st.value.args) == 1 and \
+        not st.value.keywords and isinstance(st.value.args[0], ast.IfExp):
+      v = st.value.args[0]
+      arms = []
+      for val in (v.body, v.orelse):
+        c = ast.Call(func=copy.deepcopy(st.value.func), args=[val],
+                     keywords=[])
+        e = ast.Expr(value=ast.copy_location(c, st.value))
+        ast.copy_location(e, st)
+        arms.append(_Spelling._ifexp_assign(e))
+      return [ast.copy_location(ast.If(test=v.test, body=arms[0],
+                                       orelse=arms[1]), st)]
     return [st]
 
   @staticmethod
